@@ -4,6 +4,7 @@ from __future__ import annotations
 import ast
 import io
 import os
+import re
 import textwrap
 
 from leanfmt import cps, lean_list
@@ -48,7 +49,9 @@ TRUSTED_BASE = [
     "table order are parameters of the document-level theorems (subject of C01/C04)",
     "tag values are opaque strings in the model: typing of values by group code (tag_compiler/dxftag) and their text/binary encoding is C03; "
     "the model works on compiled tags (a point is one tag)",
-    "Reactors.from_tags keeps only valid handles (fix 4273c5184; the model follows the regenerated flag Gen.reactorsDropInvalid); "
+    "the conversion of a header value to the type of another group code (_cast_header_value) and the predicate is_owned_by_unlinked_entity "
+    "are parameters of the model (DocCfg.castHeader / skipObject); "
+    "Reactors.from_tags keeps only valid handles (fix af0fa7065; the model follows the regenerated flag Gen.reactorsDropInvalid); "
     "Python dict keeps the position of the first insertion on overwrite; set() + sorted(key=int(x,16)) of reactor handles (ties between "
     "different spellings of one number are resolved in hash order by CPython and are excluded from the model: hypothesis tieFree)",
     "harness-owned DXF parser harness/dxfparse.py (shares no code with ezdxf)",
@@ -194,7 +197,9 @@ OBJSEC_BUILD = [
     "if section_head.dxftype() != 'SECTION' or section_head.base_class[1] != (2, 'OBJECTS'):\n    raise const.DXFStructureError('Critical structure error in the OBJECTS section.')",
     "for entity in entities:\n    self._entity_space.add(entity)",
 ]
-OBJSEC_EXPORT = ["tagwriter.write_str('  0\\nSECTION\\n  2\\nOBJECTS\\n')", "self._entity_space.export_dxf(tagwriter)", "tagwriter.write_tag2(0, 'ENDSEC')"]
+OBJSEC_EXPORT = ["tagwriter.write_str('  0\\nSECTION\\n  2\\nOBJECTS\\n')", "db = self.entitydb",
+                 "for entity in self._entity_space:\n    if not is_owned_by_unlinked_entity(entity, db):\n        entity.export_dxf(tagwriter)",
+                 "tagwriter.write_tag2(0, 'ENDSEC')"]   # fix 42c45156c: model DocCfg.skipObject
 LINKER_TEXT = (
     "def entity_linker_(entity: DXFEntity) -> bool:\n    nonlocal main_entity, expected_dxftype\n    dxftype: str = entity.dxftype()\n"
     "    are_linked_entities = False\n    if main_entity is not None:\n        are_linked_entities = True\n        if dxftype == 'SEQEND':\n"
@@ -213,6 +218,7 @@ CLASS_ATTR_SPEC = {  # name -> (group code, default, min dxf version) as the mod
 
 
 PINNED_FUNCTIONS = [  # (file, class, function, sha256[:16] of the docstring-free ast.unparse): hand-modelled in Model/StorageDoc.lean
+    ('src/ezdxf/sections/objects.py', None, 'is_owned_by_unlinked_entity', '7b5496376b5f91a5'),
     ('src/ezdxf/sections/blocks.py', 'BlocksSection', 'load', '643b805409f04d90'),
     ('src/ezdxf/sections/blocks.py', 'BlocksSection', 'export_dxf', '0189b78cabd2cbd0'),
     ('src/ezdxf/entities/blockrecord.py', 'BlockRecord', 'export_block_definition', 'b9574820f0b83ab3'),
@@ -248,6 +254,7 @@ def _regen_document_level(ctx) -> str:
     from ezdxf.entities.subentity import LINKED_ENTITIES
     from ezdxf.entities.dxfclass import DXFClass
     from ezdxf.sections.headervars import HEADER_VAR_MAP
+    from ezdxf.lldxf import types as _types
 
     more = ["src/ezdxf/sections/objects.py", "src/ezdxf/entities/subentity.py", "src/ezdxf/entities/factory.py", "src/ezdxf/entities/dxfclass.py",
             "src/ezdxf/sections/headervars.py", "src/ezdxf/entities/dictionary.py", "src/ezdxf/sections/blocks.py", "src/ezdxf/sections/acdsdata.py", "src/ezdxf/entities/acad_proxy_entity.py", "src/ezdxf/lldxf/tags.py"]
@@ -306,6 +313,55 @@ def _regen_document_level(ctx) -> str:
     if cexp != ["tagwriter.write_str('  0\\nSECTION\\n  2\\nCLASSES\\n')", "for dxfclass in self.classes.values():\n    dxfclass.export_dxf(tagwriter)",
                 "tagwriter.write_str('  0\\nENDSEC\\n')"]:
         raise ValueError("ClassesSection.export_dxf outside the translated subset")
+    # --- ClassesSection.add_class / add_required_classes: a class ezdxf registers never replaces an entry of the file
+    from ezdxf.sections import classes as _clsmod
+    cls_src0 = ast.parse(ctx.src("src/ezdxf/sections/classes.py"))
+    addc = [ast.unparse(x) for x in _body(_func(cls_src0, "ClassesSection", "add_class"))]
+    if addc != ["if name not in CLASS_DEFINITIONS:\n    return", "cls_data = CLASS_DEFINITIONS[name]", "cls = DXFClass.new(doc=self.doc)",
+                "cpp, app, flags, proxy, entity = cls_data",
+                "cls.update_dxf_attribs({'name': name, 'cpp_class_name': cpp, 'app_name': app, 'flags': flags, 'was_a_proxy': proxy, 'is_an_entity': entity})",
+                "self.register(cls)"]:
+        raise ValueError("ClassesSection.add_class outside the translated subset: " + repr(addc))
+    addr = [ast.unparse(x) for x in _body(_func(cls_src0, "ClassesSection", "add_required_classes"))]
+    if addr[:3] != ["names = REQUIRED_CLASSES.get(dxfversion, REQ_R2004)", "for name in names:\n    self.add_class(name)", "if self.doc is None:\n    return"] \
+            or addr[-1] != "for dxftype in dxf_types_in_use:\n    self.add_class(dxftype)" \
+            or not all(a.startswith("if '") and "in dxf_types_in_use:\n    self.add_class(" in a for a in addr[4:-1]) \
+            or addr[3] != "dxf_types_in_use = self.doc.entitydb.dxf_types_in_use()":
+        raise ValueError("ClassesSection.add_required_classes outside the translated subset")
+    if sorted(_clsmod.REQUIRED_CLASSES) != ["AC1015", "AC1018"]:
+        raise ValueError("REQUIRED_CLASSES keys changed")
+    cdefs = [f"({_nats(n)}, {_nats(v[0])}, {_nats(v[1])}, {int(v[2])}, {int(v[3])}, {int(v[4])})" for n, v in _clsmod.CLASS_DEFINITIONS.items()]
+    # --- DXFEntity.shallow_copy (type cast of POLYLINE to polyface / polymesh): which data containers the cast entity shares
+    entsrc = ast.parse(ctx.src(SRC_ENTITY))
+    sc = _body(_func(entsrc, "DXFEntity", "shallow_copy"))
+    sc_txt = [ast.unparse(x) for x in sc]
+    if sc_txt[0] != "entity = cls()" or sc_txt[-2:] != ["entity.dxf.rewire(entity)", "return entity"]:
+        raise ValueError("DXFEntity.shallow_copy outside the translated subset: " + repr(sc_txt))
+    shared = []
+    for st in sc[1:-2]:
+        t = ast.unparse(st)
+        m = re.fullmatch(r"entity\.(\w+) = other\.(\w+)", t)
+        if m and m.group(1) == m.group(2):
+            shared.append(m.group(1))
+        elif isinstance(st, ast.For) and isinstance(st.iter, (ast.Tuple, ast.List)) and all(isinstance(e, ast.Constant) and isinstance(e.value, str) for e in st.iter.elts) \
+                and [ast.unparse(b) for b in st.body] == [f"setattr(entity, {ast.unparse(st.target)}, getattr(other, {ast.unparse(st.target)}))"]:
+            shared += [e.value for e in st.iter.elts]
+        else:
+            raise ValueError("DXFEntity.shallow_copy outside the translated subset: " + t)
+    cast_classes = sorted(n for n, c in factory.ENTITY_CLASSES.items() if hasattr(c, "cast"))
+    # --- HeaderSection.export_dxf._write and _cast_header_value (fix 16b0d709b: model castGroup)
+    hsrc0 = ast.parse(ctx.src(SRC_HEADER))
+    wr = ast.unparse(_func(_func(hsrc0, "HeaderSection", "export_dxf"), None, "_write"))
+    if wr != ("def _write(name: str, value: Any) -> None:\n    if value.value is None:\n        logger.info(f'did not write header var {name}, value is None.')\n"
+              "        return\n    group_code = version_specific_group_code(name, dxfversion)\n    if group_code != value.code:\n        try:\n"
+              "            value = HeaderVar(_cast_header_value(group_code, value.value))\n        except (ValueError, TypeError):\n"
+              "            logger.info(f'did not write header var {name}, invalid value.')\n            return\n    tagwriter.write_tag2(9, name)\n"
+              "    tagwriter.write_str(str(value))"):
+        raise ValueError("HeaderSection.export_dxf._write outside the translated subset")
+    cst = ast.unparse(_strip_doc(_func(hsrc0, None, "_cast_header_value")))
+    if cst != ("def _cast_header_value(code: int, value: Any) -> tuple[int, Any]:\n    if code == 10:\n        if isinstance(value, str) or not 2 <= len(value) <= 3:\n"
+               "            raise ValueError('invalid point')\n        return (code, tuple((float(v) for v in value)))\n    return (code, cast_tag_value(code, value))"):
+        raise ValueError("_cast_header_value outside the translated subset: " + repr(cst))
     # --- HEADER_VAR_MAP
     hv = []
     for name, d in HEADER_VAR_MAP.items():
@@ -364,7 +420,7 @@ def _regen_document_level(ctx) -> str:
             raise ValueError(f"{f}: {c + '.' if c else ''}{n} changed (hash {got}, modelled {want}): review Model/StorageDoc.lean")
     # --- Dictionary.load_dict / export_dict
     dsrc = ast.parse(ctx.src("src/ezdxf/entities/dictionary.py"))
-    if [ast.unparse(x) for x in _body(_func(dsrc, "Dictionary", "load_dict"))] != ['entry_handle = None', 'dict_key = None', 'value_code = VALUE_CODE', 'for code, value in tags:\n    if code in SEARCH_CODES:\n        value_code = code\n        entry_handle = value\n    elif code == KEY_CODE:\n        dict_key = value\n    if dict_key and entry_handle:\n        self._data[dict_key] = entry_handle\n        entry_handle = None\n        dict_key = None', 'self._value_code = value_code']:
+    if [ast.unparse(x) for x in _body(_func(dsrc, "Dictionary", "load_dict"))] != ['entry_handle = None', 'dict_key = None', 'value_code = VALUE_CODE', 'for code, value in tags:\n    if code in SEARCH_CODES:\n        value_code = code\n        entry_handle = value\n    elif code == KEY_CODE:\n        dict_key = value\n    if dict_key is not None and entry_handle is not None:\n        self._data[dict_key] = entry_handle\n        entry_handle = None\n        dict_key = None', 'self._value_code = value_code']:
         raise ValueError("Dictionary.load_dict outside the translated subset")
     if [ast.unparse(x) for x in _body(_func(dsrc, "Dictionary", "export_dict"))] != ['for key, value in self._data.items():\n    tagwriter.write_tag2(KEY_CODE, key)\n    if isinstance(value, DXFEntity):\n        if value.is_alive:\n            value = value.dxf.handle\n        else:\n            logger.debug(f\'Key "{key}" points to a destroyed entity in {str(self)}, target replaced by "0" handle.\')\n            value = \'0\'\n    tagwriter.write_tag2(self._value_code, value)']:
         raise ValueError("Dictionary.export_dict outside the translated subset")
@@ -430,6 +486,18 @@ def entitiesOrder : List EntitiesPart := {lean_list("." + t for t in ent_order)}
 def classAttribOrder : List ClassAttr := {lean_list("." + CLASS_ATTR_TOKENS[n] for n in names)}
 /-- `HEADER_VAR_MAP`: (name, priority, mindxf, maxdxf) -/
 def headerVarMap : List (List Nat × Nat × Nat × Nat) := {lean_list(hv, per_line=1)}
+/-- `CLASS_DEFINITIONS`: (name, C++ class name, application name, flags, was-a-proxy, is-an-entity) -/
+def classDefinitions : List (List Nat × List Nat × List Nat × Nat × Nat × Nat) := {lean_list(cdefs, per_line=1)}
+/-- `REQUIRED_CLASSES` (names `add_required_classes` registers for a R2000 / a R2004+ target) -/
+def requiredR2000 : List (List Nat) := {lean_list((_nats(n) for n in _clsmod.REQUIRED_CLASSES["AC1015"]), per_line=1)}
+def requiredR2004 : List (List Nat) := {lean_list((_nats(n) for n in _clsmod.REQUIRED_CLASSES["AC1018"]), per_line=1)}
+/-- the attributes `DXFEntity.shallow_copy` (type cast, e.g. POLYLINE -> polyface mesh) shares with the source entity, and the
+    registered types whose class has a `cast` method -/
+def shallowCopyFields : List (List Nat) := {lean_list((_nats(n) for n in shared), per_line=1)}
+def castTypes : List (List Nat) := {lean_list((_nats(n) for n in cast_classes), per_line=1)}
+/-- `types.TYPE_TABLE`: group codes with an integer / a floating point value (every other code: text) -/
+def intCodes : List Nat := {lean_list(str(c) for c in sorted(c for c, t in _types.TYPE_TABLE.items() if t is int and c >= 0))}
+def floatCodes : List Nat := {lean_list(str(c) for c in sorted(c for c, t in _types.TYPE_TABLE.items() if t is float and c >= 0))}
 /-- group code of the value tag of every header variable (latest DXF version; `version_specific_group_code` has two exceptions) -/
 def headerVarCodes : List (List Nat × Nat) := {lean_list(hvc, per_line=1)}
 """
@@ -1053,6 +1121,11 @@ def base_doc(ver: str):
         pass
     ins = msp.add_blockref("FB", (1, 1))
     ins.add_attrib("TAG1", "text", (0, 0))
+    # POLYLINE variants that are type-cast at load time (Polyline.cast -> shallow_copy)
+    pface = msp.add_polyface()
+    pface.append_face([(0, 0, 0), (1, 0, 0), (1, 1, 0), (0, 1, 0)])
+    pmesh = msp.add_polymesh(size=(2, 2))
+    pline3d = msp.add_polyline3d([(0, 0, 0), (1, 1, 1)])
     fd = doc.rootdict.add_new_dict("FOREIGN_DICT")
     second = doc.layouts.new("Second")
     second.add_line((0, 0), (1, 0))
@@ -1071,6 +1144,9 @@ def base_doc(ver: str):
         "line": line.dxf.handle,
         "mtext": mtext.dxf.handle,
         "insert": ins.dxf.handle,
+        "polyface": pface.dxf.handle,
+        "polymesh": pmesh.dxf.handle,
+        "polyline3d": pline3d.dxf.handle,
         "layer": doc.layers.get("L1").dxf.handle,
         "fd": fd.dxf.handle,
         "root": doc.rootdict.dxf.handle,
@@ -1305,7 +1381,7 @@ class Splice:
         """XDATA, application groups, extension dictionaries and reactors on entities ezdxf implements"""
         rng, b = self.rng, self.base
         dxfparse = _import_dxfparse()
-        hosts = [b[key] for key in ("line", "layer", "fd", "mtext", "insert") if rng.random() < 0.6]
+        hosts = [b[key] for key in ("line", "layer", "fd", "mtext", "insert", "polyface", "polymesh", "polyline3d") if rng.random() < 0.6]
         # any other record ezdxf implements: table heads and entries, BLOCK/ENDBLK, BLOCK_RECORD, ATTRIB, SEQEND, LAYOUT, ...
         others = []
         for n, recs in self.secs:
@@ -1338,6 +1414,13 @@ class Splice:
                 rec += [(280, str(rng.randint(0, 1))), (281, str(rng.randint(0, 1)))]
                 recs.insert(rng.randint(0, len(recs)), rec)
                 self.expect.append(("class", (typ, cpp), rec))
+        # an entry with the key of a class ezdxf registers itself, but with the values of another application: must stay as it is
+        own = [k for k, r in enumerate(recs) if len(r) > 4 and r[0] == (0, "CLASS") and not any(kk == "class" and key == (r[1][1], r[2][1]) for kk, key, _ in self.expect)]
+        for k in rng.sample(own, min(len(own), rng.choice([0, 1, 2]))):
+            r = [tuple(t) for t in recs[k]]
+            r = [(3, "AcmeApp|Version 1.0") if c == 3 else (90, str((int(v) + 7) % 32768)) if c == 90 else (280, str(1 - int(v))) if c == 280 else (c, v) for c, v in r]
+            recs[k] = r
+            self.expect.append(("class", (r[1][1], r[2][1]), r))
 
     def add_header(self):
         rng = self.rng
@@ -1384,10 +1467,11 @@ class Splice:
             n = rng.randint(1, 2)
             recs = [[(0, "ACDSSCHEMA"), (90, "0"), (1, "AcDb3DSolid_ASM_Data"), (2, "AcDbDs::ID"), (280, "10"), (91, "8"),
                      (2, "ASM_Data"), (280, "15"), (91, "0"), (101, "ACDSRECORD"), (95, "0"), (90, "2")]]
+            other_data = rng.random() < 0.4   # records of another application: no ASM_Data (ACIS) section at all
             for i in range(n):
                 data = "".join("%02X" % rng.randrange(256) for _ in range(127))
                 recs.append([(0, "ACDSRECORD"), (90, "0"), (2, "AcDbDs::ID"), (280, "10"), (320, rng.choice(self.pool)),
-                             (2, "ASM_Data"), (280, "15"), (94, "254"), (310, data), (310, data[::-1])])
+                             (2, "Acme_Data" if other_data else "ASM_Data"), (280, "15"), (94, "254"), (310, data), (310, data[::-1])])
             head = [(0, "SECTION"), (2, "ACDSDATA"), (70, "2"), (71, str(n + 1))]
             extra.append(("ACDSDATA", [head] + recs))
             self.expect.append(("section", "ACDSDATA", [t for r in [head] + recs for t in r]))
@@ -2425,23 +2509,72 @@ def correspond_classes_full(ctx):
             impl = "none"
         reqs.append(f"clsec|{int(ver >= 'AC1018')}|{enc_recs(recs)}")
         metas.append((impl, len(recs) > 1))
+    # entries of the file that collide with the classes ezdxf registers at save time (same name, same or another C++ class name,
+    # other application name / flags / proxy / entity values): add_required_classes must not touch them
+    from ezdxf.sections.classes import CLASS_DEFINITIONS, REQUIRED_CLASSES
+    req_names = sorted(set(REQUIRED_CLASSES["AC1015"]) | set(REQUIRED_CLASSES["AC1018"]))
+    e = "required-class-does-not-replace"
+    mine = _T(0, "CLASS", 1, "MATERIAL", 2, "AcDbMaterial", 3, "AcmeApp|1.0", 90, "7", 91, "12", 280, "1", 281, "1")
+    sec = ClassesSection(None, iter([load([(0, "SECTION"), (2, "CLASSES")]), load(mine)]))
+    sec.add_required_classes("AC1027")
+    col = CompiledCollector("AC1027")
+    sec.export_dxf(col)
+    got = (col.tags[2:10], [t for t in col.tags if t == (1, "MATERIAL")])
+    ctx.count("E1 counterexample theorems on real code", e, True, sample={"theorem": "required_class_does_not_replace", "impl": str(got)[:300]})
+    if got != (mine, [(1, "MATERIAL")]):
+        ctx.disagree("E1 counterexample theorems on real code", e, str(got), str((mine, [(1, "MATERIAL")])))
+    ctx.cov["disagreements_checked"] += 1
+    for i in range(ctx.n(400, 3000)):
+        recs = []
+        for _ in range(rng.randint(0, 5)):
+            if rng.random() < 0.7:
+                n = rng.choice(req_names + ["IMAGE", "WIPEOUT"])
+                cpp = CLASS_DEFINITIONS[n][0] if rng.random() < 0.7 else "Acme" + n.title()
+                r = [(0, "CLASS"), (1, n), (2, cpp), (3, rng.choice(["AcmeApp|Version 1.0", CLASS_DEFINITIONS[n][1], ""])),
+                     (90, str(rng.choice([0, 7, CLASS_DEFINITIONS[n][2], 32768]))), (91, str(rng.randint(0, 50))),
+                     (280, str(rng.randint(0, 1))), (281, str(rng.randint(0, 1)))]
+                if rng.random() < 0.3:
+                    del r[5]
+            else:
+                r = gen_class_record(rng, wild=rng.random() < 0.3)
+            recs.append(r)
+        ver = rng.choice(["AC1015", "AC1018", "AC1027"])
+        try:
+            sec = ClassesSection(None, iter([load([(0, "SECTION"), (2, "CLASSES")])] + [load(r) for r in recs]))
+            sec.add_required_classes(ver)
+            col = CompiledCollector(ver)
+            sec.export_dxf(col)
+            impl = "ok " + enc_tags(col.tags[2:-1])
+        except Exception:  # noqa
+            impl = "none"
+        ctx.hist("X5 CLASS entries", "with-required-classes")
+        reqs.append(f"clsecr|{int(ver >= 'AC1018')}|{enc_recs(recs)}")
+        metas.append((impl, len(recs) > 0))
     _compare(ctx, "X5 CLASS entries", reqs, metas)
 
 
 def correspond_header_full(ctx):
-    """X6: HeaderSection load -> export as (name, value) groups: priority order, version window, unknown names, custom properties"""
+    """X6: HeaderSection load -> export: priority order, version window, unknown names, custom properties, value tags with the
+    required group code and with another one (converted or, when the conversion fails, not written: fix 16b0d709b)"""
+    from ezdxf.lldxf import types
     from ezdxf.lldxf.tags import Tags
     from ezdxf.sections.header import HeaderSection
     from ezdxf.sections.headervars import HEADER_VAR_MAP
 
     rng = ctx.rng("header-full")
-    plain = [n for n, d in HEADER_VAR_MAP.items() if d.code != 10 and n not in ("$ACADVER", "$ACADMAINTVER", "$XCLIPFRAME")]
+    plain = [n for n, d in HEADER_VAR_MAP.items() if n != "$ACADVER"]
     by_window = {}
     for n in plain:
         by_window.setdefault((HEADER_VAR_MAP[n].mindxf, HEADER_VAR_MAP[n].maxdxf), []).append(n)
+
+    def proper(n):
+        c = HEADER_VAR_MAP[n].code
+        t = types.TYPE_TABLE.get(c, str)
+        return (c, rng.choice(["7", "0", "-3"]) if t is int else rng.choice(["2.5", "7.0"]) if t is float else rng.choice(["txt", "x y", ""]))
+
     reqs, metas = [], []
     for _ in range(ctx.n(900, 6000)):
-        groups = [("$ACADVER", "AC1015")]
+        groups = [("$ACADVER", 1, "AC1015")]
         for _ in range(rng.randint(0, 10)):
             k = rng.randrange(10)
             if k < 5:
@@ -2449,36 +2582,32 @@ def correspond_header_full(ctx):
             elif k < 6:
                 n = rng.choice(["$ACMEVAR", "$FOREIGNSETTING", "$X"])
             elif k < 7:
-                n = rng.choice(["$LASTSAVEDBY", "$HANDSEED", "$ACADVER"])
+                n = rng.choice(["$LASTSAVEDBY", "$HANDSEED", "$ACADVER", "$ACADMAINTVER", "$XCLIPFRAME"])
             else:
                 n = rng.choice(["$CUSTOMPROPERTYTAG", "$CUSTOMPROPERTY"])
-            groups.append((n, rng.choice(["a", "b", "", "x y", "42", "7"])))
+            if n in HEADER_VAR_MAP and HEADER_VAR_MAP[n].code != 10 and rng.random() < 0.4:
+                groups.append((n,) + proper(n))          # the documented group code
+            else:
+                groups.append((n, 1, rng.choice(["a", "b", "", "x y", "42", "7", "2.5", "-3"])))   # a text tag: converted or dropped
         if rng.random() < 0.5:
             k = rng.randint(1, len(groups))
             pairs = []
             for _ in range(rng.randint(1, 3)):
-                pairs += [("$CUSTOMPROPERTYTAG", rng.choice(["K", "L", ""])), ("$CUSTOMPROPERTY", rng.choice(["v", "w", ""]))]
+                pairs += [("$CUSTOMPROPERTYTAG", 1, rng.choice(["K", "L", ""])), ("$CUSTOMPROPERTY", 1, rng.choice(["v", "w", ""]))]
             groups[k:k] = pairs
         if rng.random() < 0.3 and len(groups) > 2:
             groups.insert(rng.randint(1, len(groups)), rng.choice(groups[1:]))   # a repeated name: later value, first position
-        text = "0\nSECTION\n2\nHEADER\n" + "".join(f"9\n{n}\n1\n{v}\n" for n, v in groups)
+        text = "0\nSECTION\n2\nHEADER\n" + "".join(f"9\n{n}\n{c}\n{v}\n" for n, c, v in groups)
         h = HeaderSection.load(Tags.from_text(text))
         for ver in rng.sample(["AC1009", "AC1015", "AC1018", "AC1021", "AC1024", "AC1027", "AC1032"], 3):
             col = CompiledCollector(ver)
             h.export_dxf(col)
             body = col.tags[2:-1]
-            assert col.tags[:2] == [(0, "SECTION"), (2, "HEADER")] and col.tags[-1] == (0, "ENDSEC") and len(body) % 2 == 0
-            out = [(body[i][1], body[i + 1][1]) for i in range(0, len(body), 2)]
-            assert all(body[i][0] == 9 for i in range(0, len(body), 2))
-            reqs.append(f"hdr|{int(ver[2:])}|{cps(ver)}|" + ";".join(f"{cps(a)}:{cps(b)}" for a, b in groups))
-            metas.append((";".join(f"{cps(a)}:{cps(b)}" for a, b in out), len(groups) > 2))
+            assert col.tags[:2] == [(0, "SECTION"), (2, "HEADER")] and col.tags[-1] == (0, "ENDSEC")
+            reqs.append(f"hdr|{int(ver[2:])}|{cps(ver)}|" + ";".join(f"{cps(a)}:{c}:{cps(b)}" for a, c, b in groups))
+            metas.append(("ok " + enc_tags(body), len(groups) > 2))
             ctx.hist("X6 HEADER load/export", ver)
-    outs = ctx.driver("C02", reqs, build=DRIVER_DEPS)
-    for req, (impl, nontriv), model in zip(reqs, metas, outs):
-        ctx.count("X6 HEADER load/export", req, nontriv, sample={"request": req[:200], "impl": impl[:200], "model": model[:200]})
-        if impl != model:
-            ctx.disagree("X6 HEADER load/export", req[:3000], impl[:3000], model[:3000])
-    ctx.cov["disagreements_checked"] += len(reqs)
+    _compare(ctx, "X6 HEADER load/export", reqs, metas)
 
 
 def correspond_proxy_acds(ctx):
@@ -2835,6 +2964,26 @@ def correspond_generic_hosts(ctx):
     ctx.note(f"X9: {len(bodies)} of {len(gen_types)} generic classes have a usable default instance; skipped: {' '.join(skipped)[:300]}")
     if len(bodies) < 45:
         raise RuntimeError(f"X9: only {len(bodies)} generic classes usable: {skipped[:10]}")
+    # classes with a type cast at load time (`entity.cast()` -> shallow_copy): every variant of the flags tag that makes
+    # factory.load return another class is a host of its own (POLYLINE -> Polyface / Polymesh)
+    casts = 0
+    for name in [n for n in list(bodies) if hasattr(factory.ENTITY_CLASSES[n], "cast")]:
+        base_cls = type(factory.load(ExtendedTags.from_text(to_text([(0, name), (5, "A1"), (330, "B1")] + bodies[name])), None)).__name__
+        for code in sorted({c for c, _ in bodies[name] if c in INT16}):
+            for f in (1, 2, 4, 8, 16, 32, 64, 128):
+                body = [(c, str(f)) if c == code else (c, v) for c, v in bodies[name]]
+                try:
+                    e2 = factory.load(ExtendedTags.from_text(to_text([(0, name), (5, "A1"), (330, "B1")] + body)), None)
+                    e2.post_load_hook(_StubDoc([]))
+                    e2.export_dxf(CompiledCollector())
+                except Exception:  # noqa
+                    continue
+                if type(e2).__name__ != base_cls and f"{name}/{type(e2).__name__}" not in bodies:
+                    bodies[f"{name}/{type(e2).__name__}"] = body
+                    casts += 1
+    ctx.note(f"X9: {casts} type-cast variants: " + " ".join(k for k in bodies if "/" in k))
+    if casts < len([n for n in bodies if "/" not in n and hasattr(factory.ENTITY_CLASSES[n], "cast")]):
+        raise RuntimeError("X9: a class with a cast method has no variant that triggers the cast")
     reqs, metas = [], []
     names = sorted(bodies)
     for i in range(ctx.n(4, 30) * len(names)):
@@ -2845,10 +2994,10 @@ def correspond_generic_hosts(ctx):
             if t[0] in (100, 1001) or t == (101, "Embedded Object"):
                 break
             base.append(t)
-        if name == "DIMSTYLE":
+        if name.split("/")[0] == "DIMSTYLE":
             base = [(105, v) if (c == 5 and k == next((q for q, tt in enumerate(base) if tt[0] == 5), -1)) else (c, v) for k, (c, v) in enumerate(base)]
         xd = tags[next((k for k, t in enumerate(tags) if t[0] == 1001), len(tags)):]
-        rec = [(0, name)] + base + bodies[name] + xd
+        rec = [(0, name.split("/")[0])] + base + bodies[name] + xd
         try:
             e = factory.load(ExtendedTags.from_text(to_text(rec)), None)
             e.post_load_hook(_StubDoc(alive))
@@ -2948,7 +3097,7 @@ def correspond_dictionary(ctx):
     # the inputs of dictionary_counterexamples (Props/C02.lean)
     for name, sub, want in (("dict-mixed-codes", _T(3, "A", 350, "1", 3, "B", 360, "2"), _T(3, "A", 360, "1", 3, "B", 360, "2")),
                             ("dict-repeated-name", _T(3, "A", 350, "1", 3, "B", 350, "2", 3, "A", 350, "3"), _T(3, "A", 350, "3", 3, "B", 350, "2")),
-                            ("dict-empty-handle", _T(3, "A", 350, "", 3, "B", 350, "2"), _T(3, "B", 350, "2"))):
+                            ("dict-handle-first", _T(350, "1", 3, "A", 3, "B", 3, "C", 350, "2"), _T(3, "A", 350, "1", 3, "C", 350, "2"))):
         e = factory.load(ExtendedTags.from_text(to_text([(0, "DICTIONARY"), (5, "A1"), (330, "B1"), (100, "AcDbDictionary")] + sub)), None)
         e.post_load_hook(_StubDoc([]))
         col = CompiledCollector()
